@@ -437,9 +437,9 @@ theorem zpow10_split (x : Int) (L : Nat) : (10 : Rat) ^ x = (10 : Rat) ^ (x - L)
   rw [Int.sub_add_cancel, Rat.zpow_natCast] at h
   exact h
 
-theorem litToBytes_exact (l : Lit) (f n : Nat) (h : litToBytes l f = .ok n) :
+theorem litToBytesCore_exact (l : Lit) (f n : Nat) (h : litToBytesCore l f = .ok n) :
     l.value * (f : Rat) = (n : Rat) := by
-  unfold litToBytes at h
+  unfold litToBytesCore Lit.decExp at h
   simp only at h
   split at h
   · cases h
@@ -485,6 +485,76 @@ theorem litToBytes_exact (l : Lit) (f n : Nat) (h : litToBytes l f = .ok n) :
       · subst hz
         have hz' : (m : Rat) * (P : Rat) * (f : Rat) = 0 := by rw [hdivR]; simp
         grind
+
+theorem ofDigits_zeros (ds : List Nat) (h : ds.dropWhile (· == 0) = []) : ofDigits ds = 0 := by
+  unfold ofDigits
+  induction ds with
+  | nil => rfl
+  | cons d ds ih =>
+    simp only [List.dropWhile_cons] at h
+    split at h
+    · next hd =>
+      have : d = 0 := by simpa using hd
+      subst this
+      simpa using ih h
+    · cases h
+
+theorem ofDigits_append_zero {a b : List Nat} (h : ofDigits (a ++ b) = 0) : ofDigits a = 0 ∧ ofDigits b = 0 := by
+  rw [ofDigits_append] at h
+  have hpos : 0 < 10 ^ b.length := Nat.pow_pos (by decide)
+  have hb : ofDigits b = 0 := by omega
+  have ha : ofDigits a * 10 ^ b.length = 0 := by omega
+  exact ⟨(Nat.mul_eq_zero.1 ha).resolve_right (by omega), hb⟩
+
+theorem litToBytes_exact (l : Lit) (f n : Nat) (h : litToBytes l f = .ok n) :
+    l.value * (f : Rat) = (n : Rat) := by
+  unfold litToBytes at h
+  split at h
+  · cases h
+  · split at h
+    · next hz =>
+      injection h with hn
+      subst hn
+      have hz' : coeffDigits l = [] := by simpa using hz
+      obtain ⟨h1, h2⟩ := ofDigits_append_zero (ofDigits_zeros _ hz')
+      unfold Lit.value
+      rw [h1, h2]
+      have h0 : (((0 : Nat) : Rat) + ((0 : Nat) : Rat) / (10 : Rat) ^ l.fp.length) = 0 := by
+        rw [Rat.div_def]; simp; grind
+      rw [h0]
+      simp
+    · split at h
+      · cases h
+      · exact litToBytesCore_exact l f n h
+
+/-- The new rejection: a representable non-zero literal whose most significant digit lies beyond the bound. -/
+theorem litToBytes_range (l : Lit) (f : Nat) (hok : decimalOk l = true) (hnz : coeffDigits l ≠ [])
+    (hr : (GeneratedC18.adjustedBound : Int) < l.adjusted.natAbs) : litToBytes l f = .error .range := by
+  unfold litToBytes
+  have hne : (coeffDigits l).isEmpty = false := by
+    cases hc : coeffDigits l with
+    | nil => exact absurd hc hnz
+    | cons _ _ => rfl
+  simp [hok, hne, outOfRange, hr]
+
+/-- … and nothing else is rejected as out of range. -/
+theorem litToBytes_range_only (l : Lit) (f : Nat) (h : litToBytes l f = .error .range) :
+    coeffDigits l ≠ [] ∧ (GeneratedC18.adjustedBound : Int) < l.adjusted.natAbs := by
+  unfold litToBytes at h
+  split at h
+  · cases h
+  · split at h
+    · cases h
+    · split at h
+      · next hz hr =>
+        simp only [outOfRange, Bool.and_eq_true, Bool.not_eq_true', decide_eq_true_eq] at hr
+        refine ⟨?_, hr.2⟩
+        intro hnil; rw [hnil] at hr; simp at hr
+      · unfold litToBytesCore at h
+        simp only at h
+        split at h
+        · cases h
+        · split at h <;> cases h
 
 /-- Soundness of the parser: an accepted string denotes exactly the returned number of bytes. -/
 theorem convertStr_exact (s : List Char) (n : Nat) (h : convertStr s = .ok n) : denote s = some (n : Rat) := by
